@@ -40,6 +40,7 @@ type launchScan struct {
 	reassigned     map[string]bool            // package-level vars assigned somewhere in a function
 	aliasOf        map[string]string          // local bound to what a helper returned: interrupt := subscribe()
 	stopFns        map[string]bool            // stop functions returned by signal.NotifyContext
+	timerVars      map[string]bool            // locals bound to time.NewTimer / NewTicker / After / Tick
 	atomicVars     map[string]bool            // package-level variables of a sync/atomic type
 	acts           []string
 	ignored        map[string]bool
@@ -96,6 +97,11 @@ func coqString(s string) string {
 	}
 	b.WriteByte('"')
 	return b.String()
+}
+
+// wrong: something the scan READS and knows to break the hand-shake (as opposed to something it cannot read)
+func (l *launchScan) wrong(n ast.Node, what string) {
+	l.unknown(n, "WRONG: "+what)
 }
 
 func (l *launchScan) unknown(n ast.Node, what string) {
@@ -311,6 +317,8 @@ func (l *launchScan) calls(e ast.Node) {
 				return false
 			case l.harmless(name, t):
 				l.ignored[name] = true
+			case (name == "signal.Stop" || name == "signal.Reset" || name == "signal.Ignore") && l.notifySeen && !l.has("ASelect") && !l.hasPrefix("ASelect?"):
+				l.wrong(t, name+" before the launcher waits: the signal of Done() is no longer caught")
 			default:
 				l.unknown(t, "call "+name)
 			}
@@ -318,6 +326,15 @@ func (l *launchScan) calls(e ast.Node) {
 		}
 		return true
 	})
+}
+
+func (l *launchScan) hasPrefix(p string) bool {
+	for _, x := range l.acts {
+		if strings.HasPrefix(x, p) {
+			return true
+		}
+	}
+	return false
 }
 
 func (l *launchScan) has(a string) bool {
@@ -479,6 +496,24 @@ func (l *launchScan) onlyStops(fd *ast.FuncDecl) bool {
 	return ok
 }
 
+// isTimer: time.After(…), t.C / t with t := time.NewTimer(…) / time.After(…)
+func (l *launchScan) isTimer(e ast.Expr) bool {
+	switch t := e.(type) {
+	case *ast.ParenExpr:
+		return l.isTimer(t.X)
+	case *ast.CallExpr:
+		n := callName(t.Fun)
+		return n == "time.After" || n == "time.Tick"
+	case *ast.Ident:
+		return l.timerVars[t.Name]
+	case *ast.SelectorExpr:
+		if id, ok := t.X.(*ast.Ident); ok && t.Sel.Name == "C" {
+			return l.timerVars[id.Name]
+		}
+	}
+	return false
+}
+
 func isNil(e ast.Expr) bool {
 	id, ok := e.(*ast.Ident)
 	return ok && id.Name == "nil"
@@ -552,6 +587,12 @@ func (l *launchScan) noteAssign(lhs, rhs ast.Expr) {
 	}
 	if id, isId := lhs.(*ast.Ident); isId && callName(ce.Fun) == "exec.Command" {
 		l.cmdVars[id.Name] = true
+	}
+	if id, isId := lhs.(*ast.Ident); isId {
+		switch callName(ce.Fun) {
+		case "time.NewTimer", "time.NewTicker", "time.After", "time.Tick", "time.AfterFunc":
+			l.timerVars[id.Name] = true
+		}
 	}
 }
 
@@ -721,7 +762,7 @@ func (l *launchScan) stmt(s ast.Stmt, last, top bool) {
 		for _, cl := range t.Body.List {
 			cc := cl.(*ast.CommClause)
 			if cc.Comm == nil {
-				l.unknown(cc, "select case default (does not wait)")
+				l.wrong(cc, "select case default (the launcher does not wait)")
 				bad = true
 				continue
 			}
@@ -736,7 +777,10 @@ func (l *launchScan) stmt(s ast.Stmt, last, top bool) {
 			}
 			name := ""
 			if u, ok := e.(*ast.UnaryExpr); ok && u.Op == token.ARROW {
-				if k := l.chanKey(u.X); k != "" {
+				if l.isTimer(u.X) {
+					l.wrong(cc, "select case on a timer <-"+callName(u.X)+": the launcher stops waiting by itself")
+					bad = true
+				} else if k := l.chanKey(u.X); k != "" {
 					name = k
 				} else {
 					l.unknown(cc, "select case <-"+callName(u.X))
@@ -778,7 +822,7 @@ func cmdLaunch(repo string) error {
 	}
 	l := &launchScan{fset: fset, funcs: map[string]*ast.FuncDecl{}, atomicVars: map[string]bool{}, ignored: map[string]bool{},
 		chanCap: map[string]string{}, cmdVars: map[string]bool{}, methods: map[string][]*ast.FuncDecl{}, imports: map[string]bool{},
-		pkgInit: map[string]ast.Expr{}, reassigned: map[string]bool{}, aliasOf: map[string]string{}, stopFns: map[string]bool{}}
+		pkgInit: map[string]ast.Expr{}, reassigned: map[string]bool{}, aliasOf: map[string]string{}, stopFns: map[string]bool{}, timerVars: map[string]bool{}}
 	for _, f := range files {
 		for _, im := range f.Imports {
 			p := strings.Trim(im.Path.Value, `"`)
@@ -862,7 +906,10 @@ func cmdLaunch(repo string) error {
 					other = c
 				}
 			}
+			_, madeHere := l.chanCap[other]
 			switch {
+			case other != "" && madeHere && l.finishedChan == "" && !l.has("ASpawnWait") && !l.hasPrefix(`AUnknown "go `):
+				l.acts[i] = "AUnknown " + coqString("WRONG: select waits on <-"+other+", which nothing signals: no goroutine waits for the daemon")
 			case other != "":
 				l.acts[i] = "AUnknown " + coqString("select case <-"+other+": neither the signal.Notify channel nor the channel the waiting goroutine signals on")
 			case !hasNotify:
@@ -901,11 +948,10 @@ func cmdLaunch(repo string) error {
 	switch {
 	case doneSig == "" || !donePpid:
 		l.acts = append(l.acts, "AUnknown "+coqString("func Done: no signal sent to os.Getppid() recognised"))
-	case doneSig != "SIGINT" && !(len(l.notifySigs) == 1 && l.notifySigs[0] == doneSig && !strings.Contains(doneSig, ".")):
-		// the model's Done() sends SIGINT; another signal would need its own reading — except one package-level
-		// identifier used by BOTH signal.Notify and Done() that the scan cannot resolve (same declaration = match)
-		l.acts = append(l.acts, "AUnknown "+coqString("func Done sends "+doneSig+", not SIGINT"))
+	case doneSig == "SIGKILL" || doneSig == "syscall.SIGSTOP" || doneSig == "unix.SIGSTOP":
+		l.acts = append(l.acts, "AUnknown "+coqString("WRONG: func Done sends "+doneSig+", which cannot be caught"))
 	default:
+		// any catchable signal will do as long as the launcher listens for exactly what Done() sends (the model calls it SIGINT)
 		listens := len(l.notifySigs) == 0
 		for _, sg := range l.notifySigs {
 			if sg == doneSig {
@@ -913,7 +959,7 @@ func cmdLaunch(repo string) error {
 			}
 		}
 		if !listens && l.notifySeen {
-			l.acts = append(l.acts, "AUnknown "+coqString("signal.Notify listens for "+strings.Join(l.notifySigs, ",")+" but Done() sends "+doneSig))
+			l.acts = append(l.acts, "AUnknown "+coqString("WRONG: signal.Notify listens for "+strings.Join(l.notifySigs, ",")+" but Done() sends "+doneSig))
 		}
 	}
 	for _, want := range []string{"ANotify", "AStart", "AWritePid", "ASpawnWait", "ASelect"} {
@@ -927,6 +973,43 @@ func cmdLaunch(repo string) error {
 			l.acts = append(l.acts, "AUnknown "+coqString("missing "+want))
 		}
 	}
+	// how far the list can be trusted: wrong = something read and known to break the hand-shake; incomplete = shapes the
+	// scan cannot read (the forced schedule of the harness then decides); complete otherwise
+	var wrongs []string
+	unknowns, missing := 0, 0
+	firstN, firstS := -1, -1
+	for i, a := range l.acts {
+		switch {
+		case a == "ANotifyUnbuffered":
+			wrongs = append(wrongs, "unbuffered signal.Notify channel")
+			if firstN < 0 {
+				firstN = i
+			}
+		case strings.HasPrefix(a, `AUnknown "WRONG: `):
+			wrongs = append(wrongs, strings.TrimSuffix(strings.TrimPrefix(a, `AUnknown "WRONG: `), `"`))
+		case strings.HasPrefix(a, `AUnknown "missing `):
+			missing++
+		case strings.HasPrefix(a, "AUnknown"):
+			unknowns++
+		case a == "ANotify" && firstN < 0:
+			firstN = i
+		case a == "AStart" && firstS < 0:
+			firstS = i
+		}
+	}
+	if firstN >= 0 && firstS >= 0 && firstS < firstN {
+		wrongs = append(wrongs, "the daemon is started before signal.Notify")
+	}
+	if unknowns == 0 && missing > 0 {
+		wrongs = append(wrongs, "everything was read and a step of the hand-shake is not there")
+	}
+	reading := "complete"
+	if len(wrongs) > 0 {
+		reading = "wrong: " + strings.Join(wrongs, "; ")
+	} else if unknowns > 0 {
+		reading = "incomplete"
+	}
+	fmt.Printf("(* reading: %s *)\n", commentSafe(reading))
 	hook := "MISSING"
 	if l.hookAfterStart {
 		hook = "present"
